@@ -62,7 +62,11 @@
 (* it interpolates with the default "linear" unless the scheme is set in   *)
 (* place afterwards), "k-setter-noop" / "x-setter-noop" (setting the       *)
 (* scheme in place has no effect on one family: it keeps the scheme it was *)
-(* loaded with).  They are visible ONLY for T between nodes with a non-    *)
+(* loaded with), "k-api-stale" (the call that sets the scheme for a       *)
+(* running session, route "api", reaches the cross-sections only: the      *)
+(* k-tables already loaded keep the scheme they were loaded with -- what   *)
+(* OpacityCache.set_interpolation did before it also emptied KTableCache). *)
+(* They are visible ONLY for T between nodes with a non-                   *)
 (* default scheme (NodeBlind holds), the first pair only on the routes     *)
 (* through the constructor and the second only on the "setter" route       *)
 (* (RouteBlind holds): the alphabet of configurations needs every route    *)
@@ -81,7 +85,7 @@ CONSTANTS NN,        \* native points 1..NN
           Interps,   \* subset of {"linear", "exp"}
           Routes,    \* subset of {"global", "api", "ctor", "setter"}
           Extras,    \* subset of {"none", "stream", "deactive"}
-          CfgReads   \* subset of {"both", "k-ctor-drops", "x-ctor-drops", "k-setter-noop", "x-setter-noop"}
+          CfgReads   \* subset of {"both", "k-ctor-drops", "x-ctor-drops", "k-setter-noop", "x-setter-noop", "k-api-stale"}
 
 ASSUME Len(TPs) = NTP
 
@@ -114,8 +118,10 @@ SchemeId(m) == IF m = "exp" THEN 2 ELSE 1
 Drops(f) == (f = "k" /\ CfgRead = "k-ctor-drops") \/ (f = "x" /\ CfgRead = "x-ctor-drops")
 Noop(f)  == (f = "k" /\ CfgRead = "k-setter-noop") \/ (f = "x" /\ CfgRead = "x-setter-noop")
 \* the scheme the objects of family f ("k": k-tables, "x": cross-sections) interpolate with under the current configuration
+Stale(f) == f = "k" /\ CfgRead = "k-api-stale"
+Kept(r)  == r = "setter" \/ (r = "api" /\ CfgRead = "k-api-stale")      \* the loaded objects (of the family concerned) stay
 Eff(f) == IF Drops(f) /\ route # "setter" THEN Default
-          ELSE IF Noop(f) /\ route = "setter" THEN loaded
+          ELSE IF (Noop(f) /\ route = "setter") \/ (Stale(f) /\ route = "api") THEN loaded
           ELSE interp
 
 \* uninterpreted coefficient of native point p at (T, P) class t under scheme m: injective in (p, t) and, between
@@ -156,8 +162,8 @@ SetMode(m) == mode # m /\ mode' = m /\ Forget /\ UNCHANGED <<design, win, tp, mo
 \* the objects kept is gone) unless r sets the scheme in place on the objects already loaded
 SetCfg(m, r, e) == /\ <<interp, route, extra>> # <<m, r, e>>
                    /\ interp' = m /\ route' = r /\ extra' = e
-                   /\ loaded' = (IF r = "setter" THEN loaded ELSE m)
-                   /\ memo' = (IF r = "setter" THEN memo ELSE {})
+                   /\ loaded' = (IF Kept(r) THEN loaded ELSE m)
+                   /\ memo' = (IF Kept(r) THEN memo ELSE {})
                    /\ Forget /\ UNCHANGED <<design, win, tp, mode, mode0>>
 \* one evaluation of the long-lived pair under the current configuration: the k-table object (with its memo) and
 \* the cross-section object with the same numbers (no memo); `shape` is the path the model actually took
@@ -199,9 +205,11 @@ RefuteKDrops  == CfgRead = "k-ctor-drops" => TwinEqualsXsec
 RefuteXDrops  == CfgRead = "x-ctor-drops" => TwinEqualsXsec
 RefuteKNoop   == CfgRead = "k-setter-noop" => TwinEqualsXsec
 RefuteXNoop   == CfgRead = "x-setter-noop" => TwinEqualsXsec
+RefuteKStale  == CfgRead = "k-api-stale" => TwinEqualsXsec
 \* ... and where those mutants are INVISIBLE (these hold): on nodes / outside the table; on the other routes
 CfgMutant  == CfgRead # "both" /\ Key = "none" /\ ModeRead = "eval"
 NodeBlind  == (CfgMutant /\ ~Schemed(tp)) => TwinEqualsXsec
 RouteBlind == /\ (CfgMutant /\ CfgRead \in {"k-ctor-drops", "x-ctor-drops"} /\ route = "setter") => TwinEqualsXsec
               /\ (CfgMutant /\ CfgRead \in {"k-setter-noop", "x-setter-noop"} /\ route # "setter") => TwinEqualsXsec
+              /\ (CfgMutant /\ CfgRead = "k-api-stale" /\ route # "api") => TwinEqualsXsec
 =============================================================================
